@@ -93,6 +93,9 @@ type c04Obs struct {
 	Registered *string `json:"registered"` // "addr/role" the registry holds for the peer id afterwards
 	Notified   bool    `json:"notified"`
 	Blocked    *int64  `json:"blocked"` // duration of the block placed on the peer id (ns), null: none
+	// by how much the block's term began before the registry had even answered the stake look-up
+	// that led to it (ms, rounded up; 0: it began when the block was placed)
+	BlockEarlyMs int64 `json:"block_early_ms,omitempty"`
 	Panic      bool    `json:"panic"`
 }
 
@@ -104,6 +107,7 @@ func (c04Swarm) ConnsToPeer(peer.ID) []network.Conn            { return nil }
 
 type c04Reg struct {
 	mu      sync.Mutex
+	answeredAt time.Time
 	slowMs  int
 	answer  bool
 	lookups int
@@ -122,6 +126,7 @@ func (r *c04Reg) CheckProviderRegistered(ctx context.Context, a common.Address) 
 	}
 	r.mu.Lock()
 	defer r.mu.Unlock()
+	r.answeredAt = time.Now()
 	if ctx.Err() != nil {
 		return false
 	}
@@ -439,6 +444,11 @@ func c04Run(t *testing.T, in *c04In, w *c04World, ed bool) (obs c04Obs) {
 		if bi, ok := svc.blockMap[pid]; ok {
 			d := int64(bi.duration)
 			obs.Blocked = &d
+			reg.mu.Lock()
+			if reg.lookups > 0 && bi.start.Before(reg.answeredAt) {
+				obs.BlockEarlyMs = int64(reg.answeredAt.Sub(bi.start)/time.Millisecond) + 1
+			}
+			reg.mu.Unlock()
 		}
 		svc.blockMu.Unlock()
 	}
